@@ -52,7 +52,7 @@ func suiteNode(c *Ctx) {
 		}
 		opts := NetOpts{N: n, Weights: ws, Inst: uint64(100 + r.Intn(3))}
 		net := NewNet(c, opts, fmt.Sprintf("honest n=%d weights=%v", n, ws))
-		prof := SchedProfile{Drop: 30, Dup: 30, Timeout: 25, StaleTimeout: 200, Sync: 5, Byz: 0, CancelDuring: 10, CommitFail: 10, MaxSteps: 400, MaxHeight: 3}
+		prof := SchedProfile{Drop: 30, Dup: 30, Timeout: 25, StaleTimeout: 200, Sync: 5, Byz: 0, CancelDuring: 10, CommitFail: 10, MaxSteps: 400, MaxHeight: 3, PendingSync: 8}
 		if i%3 == 1 {
 			prof.Timeout, prof.Drop = 120, 150
 		}
@@ -72,6 +72,12 @@ func suiteNode(c *Ctx) {
 	c.Class("scenario/padded-prepare")
 	scenarioForeignEmbeddedProposal(c)
 	c.Class("scenario/nv-foreign-embedded-proposal")
+	scenarioCommitWhileSyncPending(c)
+	c.Class("scenario/commit-while-sync-pending")
+	scenarioTwoBlockProof(c)
+	c.Class("scenario/two-block-proof")
+	scenarioLateCommitAfterLaterProposal(c)
+	c.Class("scenario/late-commit-after-later-proposal")
 	// adversarial scenarios: Byzantine members of total weight <= f, all strategies
 	nadv := 60
 	if c.Thorough() {
@@ -115,7 +121,7 @@ func suiteNode(c *Ctx) {
 		}
 		opts := NetOpts{N: n, Weights: ws, ByzIdx: byz, Inst: uint64(100 + r.Intn(3))}
 		net := NewNet(c, opts, fmt.Sprintf("byzantine n=%d weights=%v byz=%v", n, ws, byz))
-		prof := SchedProfile{Drop: 20, Dup: 20, Timeout: 40, StaleTimeout: 100, Sync: 3, Byz: 120, CancelDuring: 10, CommitFail: 5, MaxSteps: 500, MaxHeight: 2}
+		prof := SchedProfile{Drop: 20, Dup: 20, Timeout: 40, StaleTimeout: 100, Sync: 3, Byz: 120, CancelDuring: 10, CommitFail: 5, MaxSteps: 500, MaxHeight: 2, PendingSync: 4}
 		if i%4 == 1 {
 			prof.Timeout = 150
 		}
@@ -465,5 +471,146 @@ func scenarioForeignEmbeddedProposal(c *Ctx) *Net {
 			net.deliverFlight(f)
 		}
 	}
+	return net
+}
+
+
+// commit-while-sync-pending: the main loop of one member has accepted a node sync for a block two
+// heights ahead (contexts older than that are cancelled) but its worker has not taken the block yet;
+// meanwhile the worker completes the commit of its current height, so the next round is refused;
+// traffic of the next height must go to the future cache, not to the term still installed; then
+// the sync arrives.
+func scenarioCommitWhileSyncPending(c *Ctx) *Net {
+	net := NewNet(c, NetOpts{N: 4, Weights: []uint64{1, 1, 1, 1}, Inst: 100}, "commit-while-sync-pending n=4")
+	net.start()
+	typ := func(f *Flight) string { return fmt.Sprintf("%T", interfaces.ToConsensusMessage(f.Raw)) }
+	deliverAll := func(kind string) {
+		pool := net.pool
+		net.pool = nil
+		var keep []*Flight
+		for _, f := range pool {
+			if typ(f) == kind {
+				net.deliverFlight(f)
+			} else {
+				keep = append(keep, f)
+			}
+		}
+		net.pool = append(keep, net.pool...)
+	}
+	deliverAll("*interfaces.PreprepareMessage")
+	deliverAll("*interfaces.PrepareMessage")
+	lag := net.order[3]
+	// the other three decide height 1; the laggard gets none of the COMMITs
+	pool := net.pool
+	net.pool = nil
+	for _, f := range pool {
+		if string(f.To) != string(lag.Id) {
+			net.deliverFlight(f)
+		}
+	}
+	// two syncs are on their way to the laggard: block 1 is still in the worker's channel when the main
+	// loop accepts block 3 and cancels everything older than (4, 0)
+	net.event(lag, "cancel 4 0", func() (string, string) { return lag.CancelAhead(3) })
+	net.sync(lag, 1)                            // the round of height 2 is refused: its context is already stale
+	deliverAll("*interfaces.PreprepareMessage") // height 2 proposal: must not reach the term of height 1
+	deliverAll("*interfaces.PrepareMessage")
+	deliverAll("*interfaces.CommitMessage")
+	net.sync(lag, 3)
+	deliverAll("*interfaces.PreprepareMessage")
+	return net
+}
+
+
+// two-block-proof: the Byzantine leader of view 1 gets the correct members to prepare block B in
+// its view, then votes for view 2 with a "proof" whose PREPREPARE reference (its own signature)
+// names a block A that every correct consumer rejects while the PREPARE signatures are the genuine
+// ones for B; it votes first, so a leader that counts this vote may re-propose A.
+func scenarioTwoBlockProof(c *Ctx) *Net {
+	net := NewNet(c, NetOpts{N: 4, Weights: []uint64{1, 1, 1, 1}, ByzIdx: []int{1}, Inst: 100}, "two-block-proof n=4 byz=[1]")
+	net.start()
+	a := net.adv
+	inst := uint64(100)
+	typ := func(f *Flight) string { return fmt.Sprintf("%T", interfaces.ToConsensusMessage(f.Raw)) }
+	net.pool = nil
+	for _, n := range net.order {
+		net.timeout(n, false)
+	}
+	net.pool = nil
+	b := a.newBlock(1, false)
+	votes := a.genuineVotes(1, 1, true, nil)
+	pp := a.ppContent(memberId(1), protocol.LEAN_HELIX_PREPREPARE, inst, 1, 1, blockHash(b))
+	a.toAll(a.mkNV(memberId(1), protocol.LEAN_HELIX_NEW_VIEW, inst, 1, 1, votes, pp, b), "nv-by-the-book")
+	net.pool = nil // PREPAREs for B are on the wire (seen) but reach nobody; nobody is prepared
+	proof, _ := a.genuineProof(1, 1)
+	if proof == nil || len(proof.PrepareSenders) == 0 {
+		c.Class("scenario/two-block-proof/not-reached")
+		return net
+	}
+	bad := a.newBlock(1, true) // a block every correct consumer rejects
+	ppref := a.refB(protocol.LEAN_HELIX_PREPREPARE, inst, 1, 1, blockHash(bad))
+	proof.PreprepareBlockRef = ppref
+	proof.PreprepareSender = a.senderB(memberId(1), 1, ppref.Build().Raw())
+	// the forged vote arrives first at the correct leader of view 2, then everybody times out and votes
+	if n, ok := net.nodes[string(memberId(2))]; ok {
+		a.inject(n, a.mkVC(a.vcContent(memberId(1), protocol.LEAN_HELIX_VIEW_CHANGE, inst, 1, 2, proof), bad), "vc-proof-two-blocks")
+	}
+	for _, n := range net.order {
+		net.timeout(n, false)
+	}
+	// everything else is delivered in order: votes, the NEW_VIEW of view 2, PREPAREs, COMMITs
+	for k := 0; len(net.pool) > 0 && k < 400; k++ {
+		f := net.pool[0]
+		net.pool = net.pool[1:]
+		_ = typ
+		net.deliverFlight(f)
+	}
+	return net
+}
+
+
+// late-commit-after-later-proposal: a correct member stored the proposal X of view 0 but saw no
+// PREPAREs; it times out, takes the stand-alone proposal Y of the Byzantine leader of view 1
+// (known finding D5 allows that for an unlocked node), and then the delayed COMMIT quorum for
+// (view 0, X) arrives: it must commit X with a proof for X.
+func scenarioLateCommitAfterLaterProposal(c *Ctx) *Net {
+	net := NewNet(c, NetOpts{N: 4, Weights: []uint64{1, 1, 1, 1}, ByzIdx: []int{1}, Inst: 100}, "late-commit-after-later-proposal n=4 byz=[1]")
+	net.start()
+	a := net.adv
+	inst := uint64(100)
+	typ := func(f *Flight) string { return fmt.Sprintf("%T", interfaces.ToConsensusMessage(f.Raw)) }
+	late := net.nodes[string(memberId(3))]
+	var hash []byte
+	pool := net.pool
+	net.pool = nil
+	for _, f := range pool { // the proposal of view 0 reaches every correct member
+		if typ(f) == "*interfaces.PreprepareMessage" {
+			hash = interfaces.ToConsensusMessage(f.Raw).(*interfaces.PreprepareMessage).Content().SignedHeader().BlockHash()
+			net.deliverFlight(f)
+		}
+	}
+	pool = net.pool
+	net.pool = nil
+	for _, f := range pool { // PREPAREs reach everybody but the late member
+		if typ(f) == "*interfaces.PrepareMessage" && string(f.To) != string(late.Id) {
+			net.deliverFlight(f)
+		}
+	}
+	held := net.pool // COMMITs of the two prepared members
+	net.pool = nil
+	if hash == nil || late == nil {
+		c.Class("scenario/late-commit/not-reached")
+		return net
+	}
+	net.timeout(late, false)
+	net.pool = nil
+	y := a.newBlock(1, false)
+	a.inject(late, a.mkPP(memberId(1), inst, 1, 1, y), "bare-pp-gt0")
+	net.pool = nil
+	for _, f := range held {
+		if typ(f) == "*interfaces.CommitMessage" && string(f.To) == string(late.Id) {
+			net.deliverFlight(f)
+		}
+	}
+	a.inject(late, a.mkC(memberId(1), protocol.LEAN_HELIX_COMMIT, inst, 1, 0, hash), "byz-commit")
 	return net
 }
